@@ -18,6 +18,9 @@
 // Go-side oracles (independent of the model):
 //
 //	C10 key=<site func>.success-with-partial-effect   nil error although a write failed and the effect differs
+//	                                                  (at once, or - latent - in the answers during a fault-free
+//	                                                  follow-up of the history, or in the raw database content)
+//	C10 key=<Op>.no-answer-after-failure.<what>       a query / the retry does not return after the failed operation
 //	C10 key=<Op>.state-changed-after-rollback         an observable differs after the rolled-back failure
 //	C10 key=<Op>.retry-differs                        retry result/state differs from the fault-free twin
 package faultops
@@ -29,6 +32,7 @@ import (
 	"os"
 	"path/filepath"
 	"regexp"
+	"runtime"
 	"sort"
 	"strconv"
 	"strings"
@@ -56,6 +60,9 @@ type world interface {
 	observeRunning() []string
 	observeFresh() []string
 	finalProbe() []string
+	// followUp continues the history after the target operation without faults (mutating the world) and returns
+	// what the queries answer on the way; nil if the world has no follow-up
+	followUp() []string
 	dump() string
 }
 
@@ -186,6 +193,8 @@ type twin struct {
 	running, fresh []string
 	preFresh       []string
 	final          []string
+	followup       []string // answers during the fault-free continuation of the history (tx world)
+	dump           string   // raw database content after the operation
 	extra          string
 	memUnstable    bool
 	err            error
@@ -289,6 +298,8 @@ func computeTwin(base, kind string, seed int64, desc string) *twin {
 	t.running = s.w.observeRunning()
 	t.fresh = s.w.observeFresh()
 	t.final = s.w.finalProbe()
+	t.dump = s.w.dump()
+	t.followup = s.w.followUp() // last: it changes the state
 	return t
 }
 
@@ -502,6 +513,100 @@ func firstDiff(a, b []string) string {
 	return ex[cl[0]]
 }
 
+// timed runs f in its own goroutine and reports whether it returned within d (the goroutine is left behind
+// otherwise: the caller must not touch what f writes).  A goroutine that is found PARKED ON A LOCK (sync.Mutex /
+// RWMutex / semaphore / channel wait, read off the runtime's goroutine dump) at two looks one second apart, after
+// at least two seconds, is given up early: nothing else runs in a session, so nobody is going to release that
+// lock; a goroutine that is merely slow gets the whole of d.
+func timed(d time.Duration, f func()) bool {
+	done := make(chan struct{})
+	idc := make(chan string, 1)
+	go func() {
+		defer close(done)
+		idc <- curGoroutineHeader()
+		f()
+	}()
+	wait := func(x time.Duration) bool {
+		tm := time.NewTimer(x)
+		defer tm.Stop()
+		select {
+		case <-done:
+			return true
+		case <-tm.C:
+			return false
+		}
+	}
+	start := time.Now()
+	first := 2 * time.Second
+	if first > d {
+		first = d
+	}
+	if wait(first) {
+		return true
+	}
+	id := <-idc
+	parked := 0
+	for time.Since(start) < d {
+		if goroutineParkedOnLock(id) {
+			parked++
+			if parked >= 2 {
+				select {
+				case <-done:
+					return true
+				default:
+					return false
+				}
+			}
+		} else {
+			parked = 0
+		}
+		if wait(time.Second) {
+			return true
+		}
+	}
+	return false
+}
+
+// curGoroutineHeader: "goroutine 123 " of the calling goroutine.
+func curGoroutineHeader() string {
+	buf := make([]byte, 64)
+	buf = buf[:runtime.Stack(buf, false)]
+	if i := strings.IndexByte(string(buf), '['); i > 0 {
+		return string(buf[:i])
+	}
+	return ""
+}
+
+// goroutineParkedOnLock looks the goroutine up in the dump of all goroutines and says whether its wait reason is a
+// lock / semaphore / channel wait.
+func goroutineParkedOnLock(header string) bool {
+	if header == "" {
+		return false
+	}
+	buf := make([]byte, 1<<20)
+	for {
+		n := runtime.Stack(buf, true)
+		if n < len(buf) {
+			buf = buf[:n]
+			break
+		}
+		buf = make([]byte, 2*len(buf))
+	}
+	for _, line := range strings.Split(string(buf), "\n") {
+		if !strings.HasPrefix(line, header+"[") {
+			continue
+		}
+		st := line[len(header)+1:]
+		for _, p := range []string{"sync.", "semacquire", "chan ", "select"} {
+			if strings.HasPrefix(st, p) {
+				return true
+			}
+		}
+		return false
+	}
+	return false
+}
+
 func clean(s string) string { return strings.ReplaceAll(s, "; ", ", ") }
 
 func validShape(p string) bool {
@@ -581,8 +686,25 @@ func (r *runner) fault(desc string, k, n int, prog string, tail bool) (string, s
 	if err != nil {
 		return "harness-error " + err.Error(), ""
 	}
-	defer s.close()
+	abandoned := false
+	defer func() {
+		if abandoned {
+			// goroutines blocked inside the manager hold read transactions: closing would block as well
+			os.Remove(s.path)
+			return
+		}
+		s.close()
+	}()
+	obsStart := time.Now()
 	preRun := s.w.observeRunning()
+	// limit for every query batch / retry after the failed operation: a manager that left a mutex locked on the
+	// error path never answers again - reported as an oracle violation instead of hanging (or dying from Go's
+	// deadlock detector).  Generous: 200 x what the same queries took before the operation, at least 8 s; given up
+	// earlier only if the goroutine is seen parked on a lock (see timed).
+	limit := 200 * time.Since(obsStart)
+	if limit < 8*time.Second {
+		limit = 8 * time.Second
+	}
 	if t.preFresh == nil {
 		t.preFresh = s.w.observeFresh() // a function of the base image and the candidate set only: computed once per op
 	}
@@ -621,6 +743,20 @@ func (r *runner) fault(desc string, k, n int, prog string, tail bool) (string, s
 		postRun := s.w.observeRunning()
 		postFresh := s.w.observeFresh()
 		same := res == t.res && !t.failed && firstDiff(postRun, t.running) == "" && firstDiff(postFresh, t.fresh) == ""
+		latent := ""
+		if fired && same {
+			// a write failed, the operation reported success and every query answers as after the fault-free run:
+			// look for a LATENT partial effect - continue the history without faults exactly as the twin did
+			// (tx world: remove the remaining unconfirmed transactions one by one) and compare the answers on the
+			// way; last resort, the raw database content
+			if d := firstDiff(s.w.followUp(), t.followup); d != "" {
+				latent = "in the fault-free follow-up of the history (remaining unconfirmed transactions removed one by one): " + d
+			} else if r.kind == "tx" && dump1 != t.dump {
+				// (tx store only: its writes are a function of the history; waddrmgr rows carry time.Now())
+				latent = "raw database content differs from the fault-free run (no query shows it yet)"
+			}
+			same = latent == ""
+		}
 		if !fired {
 			if same {
 				return "res=ok-nofault disk=- mem=- retry=-", ""
@@ -633,6 +769,9 @@ func (r *runner) fault(desc string, k, n int, prog string, tail bool) (string, s
 		d := firstDiff(postFresh, t.fresh)
 		if d == "" {
 			d = firstDiff(postRun, t.running)
+		}
+		if d == "" && latent != "" {
+			d = latent
 		}
 		if d == "" {
 			d = fmt.Sprintf("result %q vs %q", res, t.res)
@@ -652,7 +791,16 @@ func (r *runner) fault(desc string, k, n int, prog string, tail bool) (string, s
 	if fp0 != fp1 {
 		mem = "changed"
 	}
-	postRun := s.w.observeRunning()
+	noAnswer := func(what string) (string, string) {
+		abandoned = true
+		viol = append(viol, fmt.Sprintf("C10 key=%s.no-answer-after-failure.%s: %s k=%d/%d (%s) failed and was rolled back, afterwards %s did not return (still parked on a lock after 3 s, or not back within 200 x the duration of the same queries before the operation and at least 8 s): the manager no longer answers as before, the retry cannot succeed",
+			opName, what, desc, k, n, failedSite, what))
+		return fmt.Sprintf("res=err disk=%s mem=%s retry=differs", disk, mem), strings.Join(viol, "; ")
+	}
+	var postRun []string
+	if !timed(limit, func() { postRun = s.w.observeRunning() }) {
+		return noAnswer("queries")
+	}
 	postFresh := preFresh
 	if disk != "same" {
 		// a reopened manager is a function of the database content alone: only re-queried when that changed
@@ -671,7 +819,11 @@ func (r *runner) fault(desc string, k, n int, prog string, tail bool) (string, s
 		}
 	}
 	// retry without fault, compare with the fault-free twin
-	res2, rerr2 := s.w.runTarget(desc)
+	var res2 string
+	var rerr2 error
+	if !timed(limit, func() { res2, rerr2 = s.w.runTarget(desc) }) {
+		return noAnswer("retry")
+	}
 	retry := "same"
 	var whys [][2]string // (class, text)
 	switch {
@@ -680,7 +832,11 @@ func (r *runner) fault(desc string, k, n int, prog string, tail bool) (string, s
 	case res2 != t.res:
 		whys = append(whys, [2]string{"result", fmt.Sprintf("retry result %q vs fault-free %q", res2, t.res)})
 	}
-	if cl, ex := diffObs(s.w.observeRunning(), t.running); len(cl) > 0 {
+	var retryRun []string
+	if !timed(limit, func() { retryRun = s.w.observeRunning() }) {
+		return noAnswer("queries-after-retry")
+	}
+	if cl, ex := diffObs(retryRun, t.running); len(cl) > 0 {
 		for _, c := range cl {
 			whys = append(whys, [2]string{c, "running manager after retry vs fault-free twin " + ex[c]})
 		}
